@@ -603,6 +603,55 @@ ARG_RULES = {'R20': rule_R20, 'R21': rule_R21, 'R4': rule_R4, 'R5': rule_R5, 'R5
 
 # ---------------------------------------------------------------- function assembly
 
+RENAMES = {}     # (file, fn name, within) -> {old local / parameter name: new name}: set by bin/check when a rename is detected
+
+def bound_names(code):
+    """identifiers a function binds: parameters, `let [mut] x`, `for x in`, simple closure parameters (used to follow renames)"""
+    toks = _tok_code(code)
+    names = set()
+    for i, t in enumerate(toks):
+        if t.kind != 'id': continue
+        if t.text == 'let':
+            j = i + 1
+            if j < len(toks) and toks[j].text == 'mut': j += 1
+            if j < len(toks) and toks[j].kind == 'id' and toks[j].text not in ('ghost', 'tracked'):
+                names.add(toks[j].text)
+        elif t.text == 'for' and i + 2 < len(toks) and toks[i + 1].kind == 'id' and toks[i + 2].text == 'in':
+            names.add(toks[i + 1].text)
+    try:
+        bo = _find_body_open(toks)
+        kf = next(i for i, t in enumerate(toks) if t.kind == 'id' and t.text == 'fn')
+        k = next(i for i in range(kf, len(toks)) if toks[i].text == '(')
+        c = match_close(toks, k)
+        depth = 0
+        for i in range(k + 1, c):
+            if toks[i].text in OPEN: depth += 1
+            elif toks[i].text in CLOSE: depth -= 1
+            elif depth == 0 and toks[i].kind == 'id' and toks[i + 1].text == ':' and toks[i + 1].kind == 'punct' and toks[i].text not in ('mut', 'self'):
+                names.add(toks[i].text)
+    except Exception:
+        pass
+    return names
+
+def _apply_renames(fs):
+    m = RENAMES.get((fs.file, fs.name, fs.within))
+    if not m: return fs
+    def sub(x):
+        if isinstance(x, str):
+            for a, b in m.items():
+                x = re.sub(r'(?<![A-Za-z0-9_])%s(?![A-Za-z0-9_])' % re.escape(a), b, x)
+            return x
+        if isinstance(x, list): return [sub(y) for y in x]
+        if isinstance(x, tuple): return tuple(sub(y) for y in x)
+        if isinstance(x, dict): return {k: sub(v) for k, v in x.items()}
+        return x
+    g = FnSpec()
+    g.__dict__.update(fs.__dict__)
+    g.spec = sub(fs.spec); g.loops = sub(fs.loops); g.before = sub(fs.before); g.atend = sub(fs.atend); g.rw = sub(fs.rw)
+    changed = (g.spec != fs.spec or g.loops != fs.loops or g.before != fs.before or g.atend != fs.atend or g.rw != fs.rw)
+    g.renamed = dict(m) if changed else {}
+    return g
+
 class FnSpec:
     def __init__(self):
         self.file = None; self.name = None; self.within = None
@@ -660,6 +709,7 @@ def _stmt_starts(toks, lo, hi):
 
 def assemble_fn(repo, fs, record, canary=None, stub=False, soft=None):
     path = os.path.join(repo, fs.file)
+    fs = _apply_renames(fs)
     try:
         src = open(path).read()
     except OSError as e:
@@ -815,7 +865,7 @@ def assemble_fn(repo, fs, record, canary=None, stub=False, soft=None):
         pieces.append((ins, tag))
         last = off
     pieces.append((text[last:], 'CODE'))
-    record.append({'code': text, 'simple': fs.name, 'fn': (fs.within + '::' if fs.within else '') + fs.name, 'file': fs.file, 'line': line0,
+    record.append({'key': [fs.file, fs.name, fs.within], 'names': sorted(bound_names(drop_comments(raw))), 'renamed': getattr(fs, 'renamed', {}), 'code': text, 'simple': fs.name, 'fn': (fs.within + '::' if fs.within else '') + fs.name, 'file': fs.file, 'line': line0,
                    'sha256': sha, 'rules': fired, 'n_loops': len(loop_idx), 'n_canaries': n_canaries})
     return pieces
 
